@@ -20,9 +20,12 @@ try:
     cmd = ('cd %s && timeout 1500 /venv/bin/python -m pytest -q -p no:cacheprovider --timeout=60 -k "not quart" '
            'tests/rsocket tests/rx_support tests/test_reactivex --deselect tests/test_reactivex/test_concurrency.py '
            '--deselect "tests/rsocket/test_request_stream.py::test_request_stream_and_disconnect_client_after_first_message" '
+           '--deselect tests/rsocket/test_cli_command.py::test_execute_command_websocket_request '
            '> _tests.log 2>&1; tail -1 _tests.log' % wt)
     out = subprocess.run(cmd, shell=True, capture_output=True, text=True).stdout.strip()
-    rec['tests_with_change'] = {'cmd': 'pytest -k "not quart" tests/rsocket tests/rx_support tests/test_reactivex (minus 2 known-flaky)',
+    bad_tests = [l.split(' - ')[0] for l in open(wt + '/_tests.log') if l.startswith(('FAILED tests', 'ERROR tests'))]
+    rec['tests_failed_with_change'] = bad_tests
+    rec['tests_with_change'] = {'cmd': 'pytest -k "not quart" tests/rsocket tests/rx_support tests/test_reactivex (minus 3 known-flaky / contaminating tests)',
                                 'result': out, 'wall_s': round(time.time() - t0)}
     # 2. demo
     d = {}
@@ -43,7 +46,7 @@ try:
     rec['checks_quick'] = res
     rec['caught_by'] = [i for i in ids if res[i]['exit'] == 1]
     rec['ran'] = 'tools/keep_seed.py: scratch worktree of /repo HEAD + git apply; test subset; demo on changed/unchanged tree; all 20 quick checks with RV_REPO'
-    ok = ('passed' in out and 'failed' not in out and 'error' not in out.lower()) and d['changed']['exit'] != 0 and d['unchanged']['exit'] == 0
+    ok = ('passed' in out and not bad_tests) and d['changed']['exit'] != 0 and d['unchanged']['exit'] == 0
     rec['confirmed'] = bool(ok)
     os.makedirs(dst, exist_ok=True)
     shutil.copy(patch, dst + '/patch.diff'); shutil.copy(demo, dst + '/demo.py')
